@@ -48,6 +48,15 @@ _REF = 'ref_parse_outcome(self, bytes(packet.raw_data))'
 
 
 def _gen_stream(rng, tier, variant):
+    for r in _gen_stream0(rng, tier, variant):
+        if 'root_given' in (variant or ''):
+            r['opts']['root_container_name'] = r['def']['root']
+        if 'buffer_given' in (variant or ''):
+            r['opts']['buffer_read_size_bytes'] = rng.choice([1, 5, 7, 64, 4096])
+        yield r
+
+
+def _gen_stream0(rng, tier, variant):
     """streams of 1..8 packets over 1..3 APIDs mixing recognizable, unrecognizable and wrong-length packets, all option
     combinations (parse_bad_pkts, yield_unrecognized_packet_errors, ccsds_headers_only); with segment combining:
     ALL histories over {FIRST, CONTINUATION, LAST, UNSEGMENTED} x 2 APIDs up to length 4 (quick) / 5 (thorough) with
@@ -132,6 +141,9 @@ def _gen_stream(rng, tier, variant):
         yield {'def': dh, 'pkts': pk, 'opts': {'combine_segmented_packets': True, 'secondary_header_bytes': rng.choice([0, 2])}}
 
 
+_gen_stream.__doc__ = _gen_stream0.__doc__ + '; the optional root container name / buffer size arguments per variant'
+
+
 def _drain(fn, args):
     import warnings
     items, raised = [], None
@@ -162,6 +174,15 @@ _SREF = ("ref_stream(self, raws, headers_only=opts.get('ccsds_headers_only', Fal
          "yield_errors=opts.get('yield_unrecognized_packet_errors', False), parse_bad=opts.get('parse_bad_pkts', True))")
 
 M = 'self.containers'
+RPD_ = ('bobj', 'packets.RawPacketData')
+HDRLEN = '(6 + secondary_header_bytes)'
+PROOF = ['__proof__']
+G_, G0_ = '_segmented_packets', 'pre__segmented_packets'
+A_, F_ = 'bits(raw_packet_data, 5, 11)', 'bits(raw_packet_data, 16, 2)'
+ALONE = f'(not combine_segmented_packets or {F_} == 3)'
+SEG = '(not ccsds_headers_only and combine_segmented_packets)'
+GROUP = f'append({G0_}[{A_}], raw_packet_data)'
+GROUPS = ('mdict', 'int', ('list', RPD_))    # open segment groups by APID
 CUR = 'current_container'
 NV = f'nvalid({CUR}, {M}, packet, len({CUR}.inheritors))'
 
@@ -183,7 +204,9 @@ CONTRACTS = [
         target='xtce.definitions.XtcePacketDefinition.parse_ccsds_packet',
         props=['C05', 'C01', 'C11', 'C04', 'C07', 'C08', 'C06'],
         params={'self': ('rec', 'XtcePacketDefinition'), 'packet': PKT_VALUES, 'root_container_name': ('opt', 'str')},
-        returns=PKT_VALUES,
+        returns=('arg', 'packet'),
+        # callers that catch the error see the packet decoded so far as its partial_data (obligation on_raise:...:payload)
+        ghost={'raise_payload': {'UnrecognizedPacketTypeError': {'partial_data': 'packet'}}},
         requires=[('len(packet.raw_data) >= 6', ['__proof__']), (f"{_REF}[0] != 'error'", ['__native__'])],
         loops={
             ('', 0): LoopSpec(invariants={}, modifies=['packet.items', 'packet.raw_data.pos'],
@@ -237,13 +260,75 @@ CONTRACTS = [
     Contract(
         target='xtce.definitions.XtcePacketDefinition.packet_generator',
         props=['C11', 'C12', 'C14', 'C01'],
-        params={}, native_only=PENDING,
-        requires=[],
+        params={'self': ('rec', 'XtcePacketDefinition'), 'binary_data': 'bytes', 'parse_bad_pkts': 'bool',
+                'ccsds_headers_only': 'bool', 'combine_segmented_packets': 'bool',
+                'secondary_header_bytes': 'int', 'yield_unrecognized_packet_errors': 'bool', 'show_progress': 'bool',
+                'skip_header_bytes': 'int'},
+        # the two optional pass-through arguments, one variant per combination (verified in parallel)
+        variants={f'{rn}_{bn}': {'params': {'root_container_name': rt, 'buffer_read_size_bytes': bt}}
+                  for rn, rt in (('root_default', 'none'), ('root_given', 'str'))
+                  for bn, bt in (('buffer_default', 'none'), ('buffer_given', 'int'))},
+        ghost={'yield_type': 'yieldtag'},
+        requires=[('skip_header_bytes >= 0 and not show_progress and secondary_header_bytes >= 0', ['__proof__'])],
+        loops={
+            ('', 0): LoopSpec(
+                invariants={
+                    # representation invariant of the open groups: every group holds at least its FIRST packet, and
+                    # only complete packets (a primary header and at least one byte of data)
+                    'groups_nonempty': f'forall(lambda a: implies(a in {G_}, len({G_}[a]) >= 1))',
+                    'groups_complete': (f'forall(lambda a: implies(a in {G_}, forall(lambda q: len(at({G_}[a], q)) >= 7, '
+                                        f'0, len({G_}[a]))))'),
+                },
+                havoc_yielded=True, retype={'_segmented_packets': GROUPS},
+                step={
+                    # C12 (PROVED): the step function of the statement, per APID
+                    'at_most_one_item': 'len(out) <= len(pre_out) + 1',
+                    'headers_only': f'implies(ccsds_headers_only, {G_} == {G0_} and len(out) == len(pre_out) + 1)',
+                    'alone': f'implies(not ccsds_headers_only and {ALONE}, {G_} == {G0_})',
+                    'first_opens': (f'implies({SEG} and {F_} == 1, {G_} == mset({G0_}, {A_}, [raw_packet_data]) and '
+                                    'len(out) == len(pre_out))'),
+                    'continuation_joins': (f'implies({SEG} and {F_} == 0 and {A_} in {G0_}, '
+                                           f'{G_} == mset({G0_}, {A_}, {GROUP}) and len(out) == len(pre_out))'),
+                    'orphan_dropped': (f'implies({SEG} and ({F_} == 0 or {F_} == 2) and not ({A_} in {G0_}), '
+                                       f'{G_} == {G0_} and len(out) == len(pre_out))'),
+                    'last_closes': f'implies({SEG} and {F_} == 2 and {A_} in {G0_}, {G_} == mdel({G0_}, {A_}))',
+                    'gap_dropped': (f'implies({SEG} and {F_} == 2 and {A_} in {G0_} and not in_sequence({GROUP}), '
+                                    'len(out) == len(pre_out))'),
+                }),
+            ('', 1): LoopSpec(invariants={
+                'joined': f'raw_data == cat(at(segmented_packets, 0), tails(segmented_packets, 1 + _i, {HDRLEN}))'},
+                retype={'raw_data': 'bytes'},
+                hints=[f'tails_base(segmented_packets, {HDRLEN})',
+                       f'implies(1 + _i < len(segmented_packets), tails_step(segmented_packets, 1 + _i, {HDRLEN}))']),
+        },
+        comps={('list', 0): {'elem': 'bits(at(segmented_packets, j), 18, 14)', 'may_raise': ['ValueError']},
+               0: {'elem': '(at(sequence_counts, j + 1) - at(sequence_counts, j)) % 16384 == 1'}},
+        yields={
+            'headers_only': ('implies(ccsds_headers_only, item is raw_packet_data)', PROOF),
+            # C11 (PROVED): otherwise a parsed packet, or - only on request - the error object of an unrecognized packet
+            # carrying the values decoded so far
+            'kinds': ('ccsds_headers_only or item is packet or (yield_unrecognized_packet_errors and item is e)', PROOF),
+            'error_carries_partial': ('implies(not ccsds_headers_only and not (item is packet), item.partial_data is packet)', PROOF),
+            # C11 / C12 (PROVED): what was parsed is this raw packet alone, or - exactly when a LAST packet closes an open
+            # group of its APID with consecutive counts - the whole first packet followed by the later ones without
+            # their primary and secondary headers
+            'parsed_alone': (f'implies(not ccsds_headers_only and {ALONE}, bytes(packet.raw_data) == bytes(raw_packet_data))', PROOF),
+            'parsed_group': (f'implies(not ccsds_headers_only and not {ALONE}, {F_} == 2 and {A_} in {G0_} and '
+                             f'in_sequence({GROUP}) and bytes(packet.raw_data) == combined({GROUP}, {HDRLEN}))', PROOF),
+            # C14 (PROVED): delivered without the length warning exactly when every bit was consumed, and withheld
+            # otherwise unless bad packets were asked for
+            'clean_iff_consumed': ('implies(not ccsds_headers_only and item is packet, '
+                                   '(not warned()) == (packet.raw_data.pos == 8 * len(packet.raw_data)) and '
+                                   '(parse_bad_pkts or packet.raw_data.pos == 8 * len(packet.raw_data)))', PROOF),
+        },
+        final={},
+        may_raise={k: ('True', ['__proof__']) for k in ('ValueError', 'KeyError', 'ComparisonError', 'CalibrationError',
+                                                         'UnicodeDecodeError', 'TypeError', 'OverflowError')},
         ensures={
             # C11: in stream order exactly what parsing each packet on its own yields; C12: per-APID reassembly;
             # C14: yielded without the length warning iff all bits were consumed (and withheld when excluded)
-            'stream': f'stream_matches(result, {_SREF})',
-            'definition_unchanged': 'canon_definition(self) == old(canon_definition(self))',
+            'stream': (f'stream_matches(result, {_SREF})', ['__native__']),
+            'definition_unchanged': ('canon_definition(self) == old(canon_definition(self))', ['__native__']),
         },
         modifies=[],
         native={'gen': _gen_stream, 'build': _build_stream},
